@@ -8,6 +8,8 @@ package c10
 import (
 	"context"
 	"database/sql"
+	"database/sql/driver"
+	"io"
 	"fmt"
 	"math/rand"
 	"reflect"
@@ -54,9 +56,14 @@ func newSchema() *sqlgen.Schema {
 	return s
 }
 
+// DATETIME(6) values; times[0], [2], [3] lie within one second and differ only
+// in their sub-second part.
 var times = []time.Time{
 	time.Date(2021, 5, 6, 7, 8, 9, 0, time.UTC),
 	time.Date(2022, 1, 2, 3, 4, 5, 123456000, time.UTC),
+	time.Date(2021, 5, 6, 7, 8, 9, 250000000, time.UTC),
+	time.Date(2021, 5, 6, 7, 8, 9, 999999000, time.UTC),
+	time.Date(2022, 1, 2, 3, 4, 5, 123457000, time.UTC),
 }
 var zone = time.FixedZone("UTC+5:30", 5*3600+1800)
 
@@ -280,7 +287,7 @@ func genItems(r *rand.Rand) []*Item {
 			Name:  nameDomain[r.Intn(len(nameDomain))],
 			St:    Status(stDomain[r.Intn(len(stDomain))]),
 			Flag:  r.Intn(2) == 0,
-			At:    times[r.Intn(2)],
+			At:    times[r.Intn(len(times))],
 			Note:  []string{"", "n1", "n2"}[r.Intn(3)],
 		}
 		switch r.Intn(3) {
@@ -346,8 +353,11 @@ func genFilter(r *rand.Rand, table string, nItems, nLabels int) (sqlgen.Filter, 
 	var forced []string
 	if table == "items" && ncols >= 2 && r.Intn(2) == 0 {
 		// the same compound column sets recur within a round
-		forced = [][]string{{"name", "st"}, {"name", "opt_s"}, {"grp", "name"}, {"grp", "small"}, {"name", "st", "grp"}}[r.Intn(5)]
+		forced = [][]string{{"name", "st"}, {"name", "opt_s"}, {"grp", "name"}, {"grp", "small"}, {"name", "st", "grp"}, {"at", "grp"}, {"at", "flag"}}[r.Intn(7)]
 		ncols = len(forced)
+	}
+	if table == "items" && ncols == 1 && r.Intn(5) == 0 {
+		forced = []string{"at"}
 	}
 	for len(reps) < ncols {
 		col := cols[r.Intn(len(cols))]
@@ -382,7 +392,7 @@ func genFilter(r *rand.Rand, table string, nItems, nLabels int) (sqlgen.Filter, 
 		case "flag":
 			reps[col] = boolRep(r, r.Intn(2) == 0)
 		case "at":
-			reps[col] = timeRep(r, times[r.Intn(2)])
+			reps[col] = timeRep(r, times[r.Intn(len(times))])
 		case "code":
 			reps[col] = strRep(r, fmt.Sprintf("k%d", r.Intn(nLabels+1)), col)
 		case "val":
@@ -753,6 +763,22 @@ func runRound(run *vlib.Run, i int) {
 	for hi, hd := range handles {
 		marks[hi] = hd.eng.Mark("batched")
 	}
+	// fault rounds: every SELECT of the batched phase starts normally and its
+	// result stream breaks after a few rows (connection lost mid-result, a
+	// cancellation observed between two row reads)
+	faultRound := r.Intn(6) == 0
+	faultAfter := r.Intn(4)
+	faultErr := []error{driver.ErrBadConn, context.Canceled, io.ErrUnexpectedEOF, context.DeadlineExceeded}[r.Intn(4)]
+	if faultRound {
+		for _, hd := range handles {
+			hd.eng.SetHooks(fakesql.Hooks{Fault: func(st *fakesql.Stmt) *fakesql.Fault {
+				if st.Kind == fakesql.SSelect {
+					return &fakesql.Fault{RowsErr: faultErr, RowsErrAfter: faultAfter}
+				}
+				return nil
+			}})
+		}
+	}
 	bctx := batch.WithBatching(bg)
 	var wg sync.WaitGroup
 	for _, c := range calls {
@@ -770,7 +796,9 @@ func runRound(run *vlib.Run, i int) {
 	wg.Wait()
 	selects := 0
 	var stmts []string
+	faultFired := false
 	for hi, hd := range handles {
+		hd.eng.SetHooks(fakesql.Hooks{})
 		if b := hd.eng.Broken(); len(b) > 0 {
 			run.Broken(fmt.Sprintf("case %d: fake SQL engine: %s", i, strings.Join(b, " | ")))
 			return
@@ -778,6 +806,9 @@ func runRound(run *vlib.Run, i int) {
 		for _, st := range hd.eng.LogSince(marks[hi]) {
 			if st.Kind == fakesql.SSelect {
 				selects++
+				if faultRound && st.RowsReturned > faultAfter {
+					faultFired = true
+				}
 			}
 			stmts = append(stmts, fmt.Sprintf("db%d: %s", hi, st.Summary()))
 		}
@@ -791,6 +822,15 @@ func runRound(run *vlib.Run, i int) {
 	run.Count("calls", len(calls))
 	run.Count("batched_selects", selects)
 	run.Count("protocol:"+proto, 1)
+	if faultRound {
+		run.Count("rounds_with_broken_result_stream", 1)
+		if faultFired {
+			run.Count("rounds_with_broken_result_stream:fired", 1)
+		}
+		for k := range stmts {
+			stmts[k] += fmt.Sprintf("  [result stream fails with %v after %d rows]", faultErr, faultAfter)
+		}
+	}
 
 	shapes := make([]string, len(calls))
 	for k, c := range calls {
@@ -847,6 +887,12 @@ func runRound(run *vlib.Run, i int) {
 		return m
 	}
 	for _, c := range calls {
+		if faultRound && c.gotErr != nil && c.gotErr != sql.ErrNoRows {
+			// the stream broke and the call says so: fine. What must never
+			// happen is a nil error (or ErrNoRows) with a different row set.
+			run.Count("broken_stream:error_returned", 1)
+			continue
+		}
 		if c.row {
 			c.gotClass = rowClass(c.gotKeys, c.gotErr)
 			got := c.gotClass
